@@ -66,6 +66,7 @@ func randWatchAct(rng *rand.Rand, variant string) WatchAct {
 			a.CloseAfter = -1
 		case x < 70:
 			a.ConnErr = true
+			a.ConnErrKind = rng.Intn(3)
 		case x < 85:
 			a.Inject = map[int]string{rng.Intn(3): []string{"status", "bookmark", "unknown", "error"}[rng.Intn(4)]}
 			if rng.Intn(2) == 0 {
@@ -81,6 +82,7 @@ func randWatchAct(rng *rand.Rand, variant string) WatchAct {
 			a.CloseAfter = 1 + rng.Intn(4)
 		case x < 38:
 			a.ConnErr = true
+			a.ConnErrKind = rng.Intn(3)
 		case x < 46:
 			a.Hang = true
 		case x < 54:
@@ -117,8 +119,9 @@ func runCtlScenario(w *ndWriter, seed int64, variant string, idx int) bool {
 	s.srv = NewFakeServer(tr)
 	srv := s.srv
 	srv.Converged = variant == "relist" || variant == "watch"
+	srv.DeleteKeepsVersion = variant == "watch" && rng.Intn(3) == 0
 	// resource versions are compared as numbers by the cache but travel as strings: start near a digit boundary
-	srv.rv = []int{1, 1, 6, 95, 996}[rng.Intn(5)]
+	srv.rv = []int{1, 1, 6, 95, 996, 2147483630, 4294967280}[rng.Intn(7)] // ... and near 2^31 and 2^32
 
 	ctlFilter := []string{"null", "null", "lx1", "nsa", "nlx1"}[rng.Intn(5)]
 	period := time.Hour
@@ -152,7 +155,7 @@ func runCtlScenario(w *ndWriter, seed int64, variant string, idx int) bool {
 		}
 	case "listfail":
 		failAt = rng.Intn(4)
-		failKind = []string{"error", "nil", "notlist", "nonobject", "ctxerr", "nometa"}[rng.Intn(6)]
+		failKind = []string{"error", "nil", "notlist", "nonobject", "ctxerr", "nometa", "nonobject-mid"}[rng.Intn(7)]
 		for i := 0; i <= failAt; i++ {
 			a := ListAct{}
 			if i == failAt {
@@ -282,6 +285,12 @@ func runCtlScenario(w *ndWriter, seed int64, variant string, idx int) bool {
 				tr.LogRaw("drv", "expect", `"what":"controller-stops-after-list-failure","met":false`)
 			}
 		} else {
+			if rng.Intn(4) == 0 {
+				// everything disappears: the next list is empty and its Delete events must still be published
+				for _, k := range treeKeys {
+					srv.Delete(k)
+				}
+			}
 			// the server is quiet now: one further relist (started after this point) must bring the cache up to date;
 			// from here on the API server answers lists from its current state (no stale cache any more);
 			// wait for two list completions, since one may have been in flight
@@ -314,7 +323,9 @@ func runCtlScenario(w *ndWriter, seed int64, variant string, idx int) bool {
 		slowNow = 0
 		// the server is quiet.  Every scripted fault that is still ahead costs one reconnect delay; once a stream that
 		// will not be cut is connected it replays what was missed and the cache must be current at once.
-		deadline := time.Now().Add(time.Duration(nWatch+2) * 1200 * time.Millisecond)
+		// the reconnect delay is one second: k faults still ahead cost k+1 reconnects (plus one for a stream cut just now)
+		ahead := srv.FaultsAhead()
+		deadline := time.Now().Add(time.Duration(ahead+2)*1050*time.Millisecond + 1500*time.Millisecond)
 		met := false
 		for time.Now().Before(deadline) {
 			if srv.HealthyWatchConnected() {
